@@ -206,8 +206,16 @@ def poison_strategy():
                          C("set_bounds", "feed-rate", "a", 5)]).map(
             lambda c: K("set_bounds_invalid", c)),
     ]
-    from vf.hist import equally
-    return equally(*opts)
+    from vf.hist import equally, weighted
+    # fifteen calls with an invalid enum value share one alternative above: they
+    # get a share of their own (about one poisoned call in seven)
+    enums = st.sampled_from([C("set_distance_mode", "diagonal"), C("set_plane", "xx"),
+                             C("set_length_units", "furlongs"), C("set_feed_mode", "fast"),
+                             C("set_extrusion_mode", "maybe"), C("coolant_on", "spray"),
+                             C("halt", "nap"), C("set_direction", "up"), C("query", "mood"),
+                             C("set_time_units", "hours"), C("set_temperature_units", "f"),
+                             C("set_length_units", "miles")]).map(lambda c: K("bad_enum", c))
+    return weighted((6, equally(*opts)), (1, enums))
 
 
 def setup_strategy():
